@@ -175,6 +175,13 @@ def record_and_validate(v, wd, tier, prop):
     log(f"[{prop}] Trace_FES: {acc_total} recorded runs of {ops} ops accepted")
 
 
+def far_end(v):
+    """Events at Duration::MAX (the timestamp of the bucket lists' own sentinels): queued, cancellable, fetched in
+    scheduling order, dropped once (the fixed cases of `vh alloc maxtime`)."""
+    import c_alloc
+    c_alloc.maxtime(v, None, None)
+
+
 def c01(tier):
     v = Verdict("C01", tier)
     vlib.build_harness()
@@ -183,6 +190,7 @@ def c01(tier):
     mc_cqueue(v, wd, tier)
     gen_and_replay(v, wd, tier, "C01")
     record_and_validate(v, wd, tier, "C01")
+    far_end(v)
     v.cov["rule"] = ("G: every FES behaviour in the bound (TLC BFS with a history variable) replayed on CQueue under the "
                      "(n,w) x embedding x payload grid; non-trivial = contains a tie, an add at the current time or a cancel of "
                      "an event at the current time. V: seeded adaptive random histories validated by Trace_FES.")
@@ -212,6 +220,7 @@ def c03(tier):
     c_rt.gen_replay(v, wd, tier, "C03", consts, 8, "handlers emitting same-instant bursts and zero-delay follow-ups")
     # V: long random histories incl. floods of 66..105 events for the current instant (more than any fixed-size fast path holds)
     record_and_validate(v, wd, tier, "C03")
+    far_end(v)
     # net level: messages and self-messages emitted by one handler for the same future instants (buffer flush order)
     import c_net
     c_net.run_scn(v, wd, "C03", c_net.Scn("burst", menu="MenuBurst", start="StartBurst", tx="TxZero", lat="Lat1",
